@@ -73,7 +73,15 @@ func taskProgram(t *tape.Tape, uniq string, shared string, n int) []string {
 			// interning one new symbol at the same time, then converting it back
 			u = fmt.Sprintf("%s_%d", shared, t.Intn(3))
 		}
-		switch t.Pick(3, 3, 2, 2, 2, 2, 1) {
+		switch t.Pick(3, 3, 2, 2, 2, 2, 1, 2) {
+		case 7:
+			// a source file next to the process's working directory, pulled in by a relative
+			// import / invite! (several evaluations may do so at once, as handlers of one server do)
+			if t.Chance(1, 2) {
+				out = append(out, fmt.Sprintf("m_%s := import(\"./c20lib\"); [m_%s.libval, m_%s.keys.len]", u, u, u))
+			} else {
+				out = append(out, "invite!(\"./c20lib\"); libf(1)")
+			}
 		case 0:
 			out = append(out, fmt.Sprintf("a_%s := {k_%s: 1, j_%s: 2}; a_%s.keys", u, u, u, u))
 		case 1:
@@ -228,6 +236,19 @@ func schedChild(args []string) int {
 	case "warm":
 		it := harness.NewInterp()
 		c06InitObserve(it)
+		// the library file of the relative imports lives in the scratch directory, which
+		// becomes the working directory of this child
+		if dir := os.Getenv("VERIF_SCRATCH"); dir != "" {
+			if os.Chdir(dir) == nil {
+				// (many child processes share the directory: the file appears atomically, once)
+				if _, err := os.Stat("c20lib.pangaea"); err != nil {
+					tmp := fmt.Sprintf("c20lib.%d.tmp", os.Getpid())
+					if os.WriteFile(tmp, []byte("libval := 41\nlibname := \"lib\"\nlibf := {|a| a + libval}\n"), 0o644) == nil {
+						os.Rename(tmp, "c20lib.pangaea")
+					}
+				}
+			}
+		}
 		k := 2 + t.Intn(5)
 		nprog := 1 + t.Intn(4)
 		progs := make([][]string, k)
